@@ -11,6 +11,7 @@ Proved here, for ALL maps / paths / traversals / streams, about the model in `Mo
   `search_answer_is_justified`), `find_unique_order_independent`, `search_order_independent`,
   `search_total`, `tokenize_no_index_panic`;
 * recorder: `recorder_balanced`, `recorded_paths_are_tree_paths`, `recorded_paths_complete`,
+  `ignored_values_leave_no_entry`, `search_answers_consumed_position`,
   `recorder_keeps_map_invariant`, `recorder_transparent_partial`;
 * entry-point loops: `valid_eq_plain_when_passing`, `multi_reports_every_failing_doc`,
   `iter_valid_eq_plain_when_passing`, `iter_reports_every_failing_doc`.
@@ -204,13 +205,44 @@ theorem recorded_paths_are_tree_paths_doc (v : Visit α) :
     rw [← h1] at h2
     exact h2
 
-/-- **recorded_paths_complete**: when the traversal succeeds, every recorder-visible position of the
-    tree has its path in the map (so an exact lookup of a validation path that spells the YAML keys
-    cannot miss). The location stored under it is that of the LAST position with this path (duplicate
-    keys under `LastWins`, merges), see `recorded_paths_are_tree_paths`. -/
-theorem recorded_paths_complete (v : Visit α) (r : Recorder α) (hok : (record v r).1 = true) :
+/-- **recorded_paths_complete**: when the traversal succeeds, every position the target type consumes
+    (and the recorder can see) has its path in the map, so an exact lookup of a validation path that
+    spells the YAML keys cannot miss. `Consistent v` — no tree path is both consumed and handed to
+    `IgnoredAny` — is what Serde guarantees (it decides by the key text); without it a later ignored
+    value could forget the entry of an earlier consumed one with the same path. The location stored is
+    that of the LAST position with this path (merges), see `recorded_paths_are_tree_paths`. -/
+theorem recorded_paths_complete (v : Visit α) (r : Recorder α) (hok : (record v r).1 = true)
+    (hcons : Consistent v) :
     ∀ q ∈ (positions v).map (·.1), r.current ++ q ∈ (record v r).2.map.map (·.1) :=
-  record_complete v r hok
+  record_complete v r hok hcons
+
+/-- **ignored_values_leave_no_entry**: right after a value was handed to `IgnoredAny`, the map has no
+    entry under its path — whatever was inserted for it by the enclosing mapping / sequence access (or
+    was there before) is forgotten, and nothing below it is recorded. -/
+theorem ignored_values_leave_no_entry (w : Visit α) (r : Recorder α) :
+    r.current ∉ (record (.ignored w) r).2.map.map (·.1) ∧
+    ∀ e ∈ (record (.ignored w) r).2.map, e ∈ r.map := by
+  constructor
+  · intro h
+    obtain ⟨e, he, hcur⟩ := List.mem_map.mp h
+    exact ignored_removes (v := .ignored w) rfl r e he hcur
+  · intro e he
+    rcases record_added (.ignored w) r e he with h | ⟨q, _, h2⟩
+    · exact h
+    · simp [positions] at h2
+
+/-- **search_answers_consumed_position** (repaired behaviour behind the former decoy-key findings): on
+    the map recorded for a whole document, every answer of `search` — exact or fuzzy — is the location
+    of a position the target type CONSUMED. A key Serde ignored (unknown field, however it is spelt)
+    can neither win the exact pass nor be the unique candidate of a fuzzy pass, because it is not in
+    the map (`recorded_paths_are_tree_paths_doc`: `positions` excludes ignored values). -/
+theorem search_answers_consumed_position (v : Visit α) (p : Path) (loc : α) (leaf : List Char)
+    (h : search (record v { current := [], map := [] }).2.map p = some (loc, leaf)) :
+    ∃ c, (c, loc) ∈ positions v ∧ leafString c = some leaf := by
+  have hm : KeysNodup (record v { current := [], map := ([] : Map α) }).2.map :=
+    record_keysNodup v _ (by simp [KeysNodup])
+  obtain ⟨c, hc, hl⟩ := search_answer_mem hm h
+  exact ⟨c, recorded_paths_are_tree_paths_doc v (c, loc) hc, hl⟩
 
 /-- the recorder keeps the `HashMap` invariant, so the lookup theorems apply to what it produces -/
 theorem recorder_keeps_map_invariant (v : Visit α) (r : Recorder α) (h : KeysNodup r.map) :
@@ -392,6 +424,17 @@ example : (record demo { current := [], map := [] }).2.map =
 example : positions demo =
     [([], 100), ([K "a"], 1), ([K "a", I "0"], 2), ([K "a", I "1"], 3), ([K "b"], 4), ([K "b"], 5), ([K "b", K "c"], 6)] := by
   decide
+
+/-- `{defs: {x: 1}, a: 2}` where `defs` is not a field: neither `defs` nor `defs.x` is recorded -/
+private def demoIgnored : Visit Nat :=
+  .map 100 [(some "defs".toList, 1, .ignored (.map 1 [(some "x".toList, 2, .leaf true)])),
+            (some "a".toList, 3, .leaf true)]
+
+example : (record demoIgnored { current := [], map := [] }).2.map = [([], 100), ([K "a"], 3)] := by decide
+example : positions demoIgnored = [([], 100), ([K "a"], 3)] := by decide
+example : ignoredAt demoIgnored = [[K "defs"]] := by decide
+/-- hypothesis of `recorded_paths_complete` is satisfiable on a traversal with an ignored value -/
+example : Consistent demoIgnored := by unfold Consistent; decide
 
 /-- a stream with two failing documents out of four: both are reported, in order -/
 example : multiValid [Doc.value 1 none, .value 2 (some "r2"), .skip, .value 3 (some "r3"), .value 4 none] [] []
